@@ -43,7 +43,7 @@ RULE = ("case = 1..4 program trees (Seq | Try(filter set of 1,2,3,5 or 8 kinds o
         "lexical template 1..4 | Nest(cnt directly nested try blocks with one filter and handler, cnt 2..40 or around "
         "255/256/257, 1000, 2000; open blocks per tree <= the library's 2048; nests of exactly 2047 and 2048 blocks are enumerated)), first tree height <= 6 and <= 40 "
         "nodes (templates counted expanded, a Nest counted as one level), further trees "
-        "<= 12 nodes, 19 exception kinds (every built-in exception object and three user objects whose names are prefixes of one another); a throw is "
+        "<= 12 nodes, 20 exception kinds (every built-in exception object, three user objects and a second object with the type name of one of them whose names are prefixes of one another); a throw is "
         "the throw macro with a short, 300 or 6000 character message, or an exception raised by a library function "
         "called at that point (assign/get/cast/stell/len/print_to); run by the real macros in the executor's main thread "
         "or (a quarter of the cases, per tree) in a fresh Cello Thread while the main thread holds 0..3 try blocks open, in the "
@@ -70,7 +70,12 @@ KN = ["TypeError", "KeyError", "ValueError", "IOError", "UserExc", "UserExcEOF",
       # the remaining built-in exception objects (every built-in one is a kind of its own: a filter naming one of them
       # must not match another)
       "BusyError", "ResourceError", "OutOfMemoryError", "SegmentationError", "ProgramAbortedError", "DivisionByZeroError",
-      "IllegalInstructionError", "ProgramInterruptedError", "ProgramTerminationError"]
+      "IllegalInstructionError", "ProgramInterruptedError", "ProgramTerminationError",
+      # a second object with the type name of UserExc: matched by a filter naming either (filters compare by name), bound
+      # in the handler as itself
+      "UserExcTwin"]
+TN = list(KN)                       # the type name of each kind (what filters compare and the diagnostic prints)
+TN[19] = "UserExc"
 NK = len(KN)
 LIBK = (0, 1, 2, 3, 7, 8, 9)        # kinds some library function raises on request (harness/ex_exc.c lib_raise)
 ARITIES = (1, 2, 3, 5, 8)           # one real catch site per filter arity
@@ -315,7 +320,7 @@ def ref_run(t, trace, st_, enc=0):
             trace.append("post %d" % (i + j))
             continue
         kind = r[1]
-        if filt == "A" or kind in filt:
+        if filt == "A" or any(TN[f] == TN[kind] for f in filt):
             trace.append("handler %d %s 1" % (i + j, KN[kind]))   # bound object is the thrown one
             r2 = ref_run(handler, trace, st_, enc + j + 1)
             if r2 == OK:
@@ -338,7 +343,7 @@ def reference(tree_numbered):
     if r == OK:
         trace.append("end")
     else:
-        trace.append("child exit=1 sig=0 uncaught=%s" % KN[r[1]])
+        trace.append("child exit=1 sig=0 uncaught=%s" % TN[r[1]])
         st_["ev"].add("escape")
     return r, trace, st_["ev"]
 
@@ -580,7 +585,10 @@ class _Gen:
             return "A"
         f = self.others(k, self.arity() - 1)
         p = self.draw(st.integers(0, len(f)))
-        return f[:p] + [k] + f[p:]
+        m = k
+        if k in (4, 19) and (4 + 19 - k) not in f and self.draw(st.integers(0, 1)) == 0:
+            m = 4 + 19 - k                       # the filter names the other object of the same type name
+        return f[:p] + [m] + f[p:]
 
     def f_non(self, k):
         return self.others(k, self.arity())
